@@ -142,6 +142,9 @@ static std::string write1x(const J &am, const J &vr)
             // units declared inside a component, used by a variable of that component
             extra = "<units name=\"uc\"><unit units=\"" + spell("litre", us) + "\" prefix=\"micro\"/></units><variable name=\"w\" units=\"uc\"/>";
             extraDone = true;
+            // ... and an equation whose number names a standard unit
+            math += "<math xmlns=\"http://www.w3.org/1998/Math/MathML\"" + std::string(mathPrefix ? " xmlns:cellml=\"" + ns + "\"" : "") + "><apply><eq/><ci>w</ci><cn cellml:units=\""
+                    + spell("litre", us) + "\">1</cn></apply></math>";
         }
         body = mathFirst ? math + vars + extra : vars + extra + math;
         s += "<component" + attr("name", X(c["name"])) + attr("cmeta:id", X(c["id"])) + ">" + body + "</component>\n";
